@@ -16,7 +16,8 @@ ContainerAlpha ==
   {It("default", "word"), It("default", "words"), It("rename_all", "rule"), It("rename_all", "str"), It("map", "str"), It("and_then", "str"),
    It("allow_unknown_fields", "word"), It("allow_unknown_fields", "str"), It("attributes", "words"), It("attributes", "str"),
    It("forward_attrs", "word"), It("forward_attrs", "words"), It("from_ident", "word"), It("from_word", "path"), It("from_word", "str"),
-   It("from_none", "closure"), It("supports", "shapes"), It("supports", "badshape"), It("supports", "dblprefix"), It("bogus", "words")}
+   It("from_none", "closure"), It("supports", "shapes"), It("supports", "badshape"), It("supports", "dblprefix"), It("supports", "anybad"), It("bogus", "words"),
+   It("::map", "str"), It("::default", "word")}      \* a leading `::` makes it another name
 ContainerSmall == {It("from_word", "path"), It("attributes", "words"), It("forward_attrs", "word")}
 AttrForms == {It("@bare", ""), It("@nv", ""), It("@lit", ""), It("@junk", "")}
 AttrContainer == AttrForms \cup {It("default", "word"), It("bogus", "word")}
@@ -25,7 +26,7 @@ AttrVariant == AttrForms \cup {It("skip", "word")}
 FieldDerives == {"FromMeta", "FromDeriveInput"}
 FieldShapes == {"named"}
 ContDerives == AllDerives
-ContShapes == {"named", "named_attrs", "named0", "unit", "newtype", "tuple2", "tuple0", "enum", "enum0", "union"}
+ContShapes == {"named", "named_attrs", "named_attrs_with", "named0", "unit", "newtype", "tuple2", "tuple0", "enum", "enum0", "union"}
 EnumDerives == {"FromMeta"}
 EnumShapes == {"enum"}
 AttrShapes == {"named", "enum", "unit"}
